@@ -33,10 +33,10 @@ TIERS = {
 }
 STEP_CAP = 500000
 SHRINK_BUDGET = 250
-FAULT_OPS = ("restart", "redeliver", "alloc", "gc")
+FAULT_OPS = ("restart", "redeliver", "alloc", "gc", "prune")
 PROBES = ["redelivery_hit_template", "restart_between_batches", "near_miss_same_pregroup",
           "class_of_size_ge3_split_across_batches", "single_batch_no_template_path", "relabelled_duplicate",
-          "one_shot_compared", "lib_check_new_class", "lib_check_existing_class"]
+          "one_shot_compared", "lib_check_new_class", "lib_check_existing_class", "library_ids_not_contiguous"]
 REAL = ["synkit.Graph.Matcher.batch_cluster.BatchCluster.fit / cluster / lib_check / batch_dicts",
         "synkit.Graph.Matcher.graph_cluster.GraphCluster.fit / iterative_cluster",
         "synkit.Graph.Matcher.graph_morphism.graph_isomorphism (networkx is_isomorphic with generic matchers)",
@@ -101,6 +101,8 @@ def generate(seed: int, tier: str = "quick") -> Dict[str, Any]:
         c = rng.random()
         if faulty and rng.random() < 0.1:
             ops.append({"op": "gc", "s": s()})
+        if faulty and rng.random() < 0.08:
+            ops.append({"op": "prune", "s": s(), "drop": [rng.randrange(8) for _ in range(rng.randint(1, 2))]})
         if faulty and c < 0.12:
             ops.append({"op": "restart", "s": s()})
         elif faulty and c < 0.27:
@@ -158,10 +160,14 @@ def _run(case: Dict[str, Any], sim: Sim, world: World) -> None:
         # same class iff isomorphic, over everything delivered so far
         n = len(seen)
         for i in range(n):
+            if seen[i].get("retired"):
+                continue
             if seen[i]["cls"] is None or isinstance(seen[i]["cls"], bool) or not isinstance(seen[i]["cls"], int):
                 raise Violation(PROP, site, "item_without_class", cond, {"item": seen[i]["spec"], "class": repr(seen[i]["cls"])})
         rep: Dict[int, int] = {}
         for i in range(n):
+            if seen[i].get("retired"):
+                continue
             c = seen[i]["cls"]
             if c in rep:
                 if not rcdata.isomorphic(seen[rep[c]]["spec"], seen[i]["spec"]):
@@ -194,6 +200,24 @@ def _run(case: Dict[str, Any], sim: Sim, world: World) -> None:
         if k == "gc":
             world.main_alloc.collect()
             sim.event("gc", None)
+            continue
+        if k == "prune":
+            # the caller compacts the durable library: some representatives (and with them their classes) are
+            # forgotten; items of forgotten classes are retired from the oracle (a later isomorphic item
+            # legitimately opens a fresh class)
+            if len(templates) >= 2:
+                drop_idx = sorted({d % len(templates) for d in op["drop"]})
+                if len(drop_idx) < len(templates):
+                    gone = {templates[i]["class"] for i in drop_idx}
+                    templates = [t for i, t in enumerate(templates) if i not in drop_idx]
+                    for it in seen:
+                        if it["cls"] in gone:
+                            it["retired"] = True
+                    sim.fault("prune")
+                    ids = sorted(t["class"] for t in templates)
+                    if ids != list(range(len(ids))):
+                        sim.probe("library_ids_not_contiguous")
+            sim.event("prune", len(templates))
             continue
         if k == "restart":
             bc = BatchCluster()
@@ -247,9 +271,9 @@ def _run(case: Dict[str, Any], sim: Sim, world: World) -> None:
                 c = seen[u]["cls"]
                 if c in old_classes:
                     continue
-                # fresh class: no earlier item may be isomorphic to it
+                # fresh class: no earlier (non-retired) item may be isomorphic to it
                 for j in range(uids[0]):
-                    if rcdata.isomorphic(seen[j]["spec"], seen[u]["spec"]):
+                    if not seen[j].get("retired") and rcdata.isomorphic(seen[j]["spec"], seen[u]["spec"]):
                         raise Violation(PROP, site, "fresh_class_despite_isomorphic_template", cond,
                                         {"item": seen[u]["spec"], "earlier": seen[j]["spec"], "classes": [seen[j]["cls"], c]})
             sim.state((k, len(set(d["cls"] for d in seen)), min(len(seen), 12), akey is not None,
@@ -259,6 +283,8 @@ def _run(case: Dict[str, Any], sim: Sim, world: World) -> None:
             if not batches:
                 continue
             uids = batches[op["batch"] % len(batches)]
+            if any(seen[u].get("retired") for u in uids):
+                continue
             specs = [seen[u]["spec"] for u in uids]
             before = [seen[u]["cls"] for u in uids]
             n_t = len(templates)
@@ -298,7 +324,7 @@ def _run(case: Dict[str, Any], sim: Sim, world: World) -> None:
             if "class" not in d:
                 raise Violation(PROP, site, "item_without_class", "", {"item": sp})
             seen[uid]["cls"] = d["class"]
-            iso_earlier = [j for j in range(uid) if rcdata.isomorphic(seen[j]["spec"], sp)]
+            iso_earlier = [j for j in range(uid) if not seen[j].get("retired") and rcdata.isomorphic(seen[j]["spec"], sp)]
             if d["class"] in old_classes:
                 sim.probe("lib_check_existing_class")
             else:
@@ -345,7 +371,8 @@ def _run(case: Dict[str, Any], sim: Sim, world: World) -> None:
                         if a:
                             break
                     raise Violation(PROP, name, cls, "one-shot", {"a": a, "b": b, "got": got, "truth": truth})
-                if not rcdata.same_partition(got, incr):
+                live = [i for i, u in enumerate(order) if not seen[u].get("retired")]
+                if not rcdata.same_partition([got[i] for i in live], [incr[i] for i in live]):
                     raise Violation(PROP, name, "one_shot_differs_from_incremental", "one-shot", {"one_shot": got, "incremental": incr})
             sim.probe("one_shot_compared")
             sim.state(("one_shot", len(set(truth)), min(len(seen), 12)))
